@@ -68,3 +68,90 @@ def run(tier, seed):
     if not proofs_ok and not ck.violations:
         ck.violation("proof-broken", {"kind": "proof-broken"}, getattr(ck, "proof_failure", {}), no_input=True)
     return ck.finish()
+
+
+# ---------------------------------------------------------------------------------------------------------------
+# Typed validation (appended; nothing above is changed). Every generated program is ALSO checked by the Coq type
+# checker coq/Wasm/Validate.v inside the same Coq evaluation that runs the reference semantics for the interpreter:
+# harness/c01t decodes each module's bytes (wazero's binary decoder + harness/common/typed.go) into the typed mirror
+# term; Wasm/ValidateHarness.v checks (a) that its erasure is the store the generator printed and (b) that the
+# checker accepts it, before running the case. A rejection means the 'valid by construction' generator or the
+# checker is wrong: reported as `model-differs`. Soundness of the checker for W: Properties/C03.v
+# (C03_validated_no_stuck), and C01_slot_machine_refines_spec uses it.
+_base_coq_dcase, _base_eval_dcases, _BaseCheck = coq_dcase, eval_dcases, Check
+_TYPED = {"viol": [], "validated": 0, "skipped": None, "cache": {}}
+
+
+class _Item(str):
+    pass
+
+
+def coq_dcase(c, eo):
+    it = _Item(_base_coq_dcase(c, eo))
+    it.case = c
+    return it
+
+
+def _typed_terms(cases):
+    """wasm hex -> {"funcs": coq term, "gt": coq term}; None when the c01t harness is unavailable."""
+    todo = [c["wasm"] for c in cases if c["wasm"] not in _TYPED["cache"]]
+    if todo:
+        binp, log = build_harness("c01t")
+        if not binp:
+            _TYPED["skipped"] = "harness c01t does not build: " + log[-1500:]
+            return None
+        rc, out = sh([binp], timeout=300, inp="\n".join(todo) + "\n")
+        outs = [json.loads(l) for l in out.split("\n") if l.startswith("{")]
+        if rc != 0 or len(outs) != len(todo):
+            _TYPED["skipped"] = "harness c01t failed (rc %d, %d of %d lines): %s" % (rc, len(outs), len(todo), out[-1500:])
+            return None
+        for w, o in zip(todo, outs):
+            _TYPED["cache"][w] = o
+    return _TYPED["cache"]
+
+
+def eval_dcases(name, items, **kw):
+    if name != "c01_interp" or kw or not all(isinstance(it, _Item) for it in items):
+        return _base_eval_dcases(name, items, **kw)
+    typed = _typed_terms([it.case for it in items])
+    if typed is None:
+        return _base_eval_dcases(name, items)
+    vitems, bad = [], []
+    for k, it in enumerate(items):
+        t = typed[it.case["wasm"]]
+        if t.get("err"):
+            bad.append((k, t["err"]))
+            vitems.append("{| v_case := %s; v_funcs := []; v_gt := [] |}" % it)   # -> 3001
+        else:
+            vitems.append("{| v_case := %s;\n v_funcs := %s; v_gt := %s |}" % (it, t["funcs"], t["gt"]))
+    mism, err = _base_eval_dcases(name, vitems, shard=40, fn="vmismatches",
+                                  imports="Wasm.Numerics Wasm.Sem Wasm.Harness Wasm.Validate Wasm.ValidateHarness")
+    if err:
+        return mism, err
+    _TYPED["validated"] += len(items)
+    keep = []
+    errs = dict(bad)
+    for k, code in mism:
+        if code in (3000, 3001):
+            _TYPED["validated"] -= 1
+            _TYPED["viol"].append({"code": code,
+                                   "meaning": "3000: Wasm/Validate.v rejects the generated program; 3001: the typed mirror decoded from the module bytes does not erase to the generator's Coq term",
+                                   "decoder_error": errs.get(k), "case": items[k].case})
+        else:
+            keep.append((k, code))
+    return keep, None
+
+
+class Check(_BaseCheck):
+    def finish(self, level="proof"):
+        if self.pid == "C01":
+            for v in _TYPED["viol"][:2]:
+                self.violation("model-differs", {"kind": "model-differs", "what": "typed-validation", "code": v["code"]}, v)
+            if _TYPED["skipped"]:
+                self.violation("harness-build", {"kind": "build", "harness": "c01t"}, {"log": _TYPED["skipped"]}, no_input=True)
+            if isinstance(self.dist, dict):
+                self.dist["validated_by_coq_type_checker"] = _TYPED["validated"]
+                self.dist["rejected_by_coq_type_checker"] = len(_TYPED["viol"])
+            self.trusted.append("harness/c01t + harness/common/typed.go (typed mirror terms decoded from the module bytes); "
+                                "coq/Wasm/Validate.v instr_eqb (syntactic comparison of the erasure with the generator's term)")
+        return super().finish(level)
